@@ -840,3 +840,98 @@ contract(
         f"{MPU}:MPUChunk.flush": lambda write, g, hdr_seg, ftr_seg: dict(g=_g_all(g, hdr_seg, ftr_seg, write), hdr=bool(_hlen(hdr_seg) > 0)),
     },
 )
+
+
+# ---- mpu_write / from_dask_bag: how the graph is put together (dask is a recording ghost) ------------------------------------------------
+
+
+def _lemma_mpu_write_flow(n_bags, np0, np1, np2, wpc, has_write, min_part, min_sz, has_header, has_footer, spill_sz):
+    import sys
+
+    import dask.bag
+    import dask.base
+    import dask.delayed  # noqa: F401  (the attribute dask.delayed is the function; the module is in sys.modules)
+
+    dmod = sys.modules["dask.delayed"]
+    m = repo(MPU)
+    log = []
+    nps = [np0, np1, np2][:n_bags]
+
+    class Bag:
+        def __init__(self, name, npartitions):
+            self.name, self.npartitions = name, npartitions
+
+        def fold(self, binop, split_every=None):
+            log.append(("fold", self.name, binop, split_every))
+            return ("folded", self.name)
+
+    class W:
+        pass
+
+    write = None
+    if has_write:
+        write = W()
+        write.min_part, write.min_write_sz = min_part, min_sz
+    hdr = (lambda *a, **k: b"H") if has_header else None
+    ftr = (lambda *a, **k: b"F") if has_footer else None
+    bags = [Bag(f"bag{i}", n) for i, n in enumerate(nps)]
+    saved = (dask.bag.from_sequence, dask.bag.map_partitions, dask.bag.Item.from_delayed, dask.base.tokenize, dmod.delayed, m.MPUChunk.__dict__["gen_bunch"])
+    import dask as _dask
+
+    saved_top = _dask.delayed
+    try:
+        m.MPUChunk.gen_bunch = staticmethod(lambda partId, n, **kw: (log.append(("gen_bunch", partId, n, kw)), ("bunch", partId))[1])
+        dask.bag.from_sequence = lambda seq, npartitions=None, **k: (log.append(("from_sequence", seq, npartitions)), Bag(("mpus", seq), npartitions))[1]
+        dask.bag.map_partitions = lambda fn, *a, **k: (log.append(("map_partitions", fn, tuple(x.name for x in a), k)), Bag(("appended", a[1].name), a[1].npartitions))[1]
+        dask.bag.Item.from_delayed = staticmethod(lambda d: ("item", d))
+
+        def delayed(fn, **dk):
+            def call(*a, **k):
+                log.append(("delayed-call", fn, dk, a, k))
+                return ("delayed", getattr(fn, "__name__", fn))
+
+            return call
+
+        dmod.delayed = delayed
+        _dask.delayed = delayed
+        dask.base.tokenize = lambda *a, **k: "TK"
+        out = m.mpu_write(bags if n_bags > 1 else bags[0], write, mk_header=hdr, mk_footer=ftr, user_kw={"k": 1}, writes_per_chunk=wpc, spill_sz=spill_sz)
+    finally:
+        dask.bag.from_sequence, dask.bag.map_partitions, dask.bag.Item.from_delayed, dask.base.tokenize, dmod.delayed = saved[:5]
+        m.MPUChunk.gen_bunch = saved[5]
+        _dask.delayed = saved_top
+    gens = [e for e in log if e[0] == "gen_bunch"]
+    claim(len(gens) == n_bags, "one bunch of empty chunks per input bag")
+    first_id = (min_part if has_write else 1) + 1
+    want_keep = min_sz if has_write else 0
+    acc = first_id
+    for i, (g, n) in enumerate(zip(gens, nps)):
+        claim(g[1] == acc and g[2] == n, f"bag {i}: its partitions get the part-number windows that follow those of the earlier bags (the writer's first number is reserved for the header / left-over part)")
+        claim(g[3]["writes_per_chunk"] is wpc, f"bag {i}: window width = writes per chunk")
+        claim(g[3]["lhs_keep"] == want_keep, f"bag {i}: every chunk keeps the writer's minimum part size back on its left -- with or without a header -- so that a small leading piece can always be completed by its neighbour")
+        claim(g[3]["mark_final"] is ((not has_footer) and i == n_bags - 1), f"bag {i}: only the last partition of the last bag may be final, and only when no footer follows")
+        acc = acc + n * wpc
+    maps = [e for e in log if e[0] == "map_partitions"]
+    claim(len(maps) == n_bags and all(e[1] is m._mpu_append_chunks_op and e[2][1] == f"bag{i}" and e[3].get("write") is write and e[3].get("spill_sz") is spill_sz for i, e in enumerate(maps)), "chunks are appended partition by partition to the matching empty chunk, with the writer and spill size")
+    folds = [e for e in log if e[0] == "fold"]
+    claim(len(folds) == n_bags and all(getattr(e[2], "func", None) is m._merge_and_spill_op and e[2].keywords == {"write": write, "spill_sz": spill_sz} for e in folds), "partitions are folded with merge-and-spill (adjacent, in order: dask's fold, assumed)")
+    calls = [e for e in log if e[0] == "delayed-call"]
+    fin = [e for e in calls if e[1] is m._finalizer_dask_op]
+    col = [e for e in calls if e[1] is m._mpu_collate_op]
+    if n_bags == 1:
+        claim(col == [] and fin[0][3][0] == ("folded", ("appended", "bag0")), "a single bag: its folded stream goes to the finaliser directly")
+    else:
+        claim(len(col) == 1 and list(col[0][3][0]) == [("folded", ("appended", f"bag{i}")) for i in range(n_bags)] and col[0][4] == {"pure": False, "write": write, "spill_sz": spill_sz}, "several bags: their folded streams are collated in order")
+        claim(fin[0][3][0] == ("item", ("delayed", "_mpu_collate_op")), "... and the collated stream goes to the finaliser")
+    claim(len(fin) == 1 and fin[0][4]["write"] is write and fin[0][4]["mk_header"] is hdr and fin[0][4]["mk_footer"] is ftr and fin[0][4]["user_kw"] == {"k": 1}, "the finaliser gets the writer, header / footer makers and user arguments")
+    claim(out == ("delayed", "_finalizer_dask_op"), "one delayed finaliser is returned")
+
+
+lemma(
+    "mpu.write_graph_flow",
+    ["C06", "C05"],
+    inputs=dict(n_bags=OneOf(1, 2, 3), np0=Int(ge=1), np1=Int(ge=1), np2=Int(ge=1), wpc=Int(ge=1), has_write=Bool(), min_part=Int(ge=1), min_sz=Int(ge=1), has_header=Bool(), has_footer=Bool(), spill_sz=Int(ge=0)),
+    body=_lemma_mpu_write_flow,
+    unstub=[f"{MPU}:MPUChunk.gen_bunch"],
+    note="data flow of the real mpu_write / from_dask_bag with dask's bag and delayed constructors recorded: part-number windows across bags (symbolic partition counts), lhs_keep, finality, fold / collate / finalise wiring; dask's fold semantics are assumed",
+)
